@@ -12,6 +12,17 @@ def product(**axes):
         yield dict(zip(keys, vals))
 
 
+def load_all_known():
+    p = os.path.join(os.path.dirname(os.path.dirname(os.path.abspath(__file__))), 'known_findings.jsonl')
+    out = []
+    if os.path.exists(p):
+        for line in open(p):
+            line = line.strip()
+            if line and not line.startswith('#'):
+                out.append(json.loads(line))
+    return out
+
+
 class McRun:
     """One dmc exploration: build/<mode>/<bin> --harness h key=val ... --bound b"""
 
@@ -19,6 +30,9 @@ class McRun:
         self.bin, self.harness, self.params, self.bound, self.mode = bin, harness, dict(params or {}), bound, mode
         self.opts, self.budget, self.max_execs, self.extra, self.tag = dict(opts or {}), budget, max_execs, list(extra or []), tag
         self.jobs = jobs if jobs is not None else (4 if mode.startswith('plain') else 1)
+        # cores charged by bin/check: sanitizer builds map large shadow regions per thread, and page-table work is
+        # serialised VM-wide here, so at most eight of them run side by side
+        self.weight = self.jobs if mode.startswith('plain') else 2
 
     def target(self, bdir):
         return '%s/%s/%s' % (bdir, self.mode, self.bin)
@@ -37,6 +51,11 @@ class McRun:
         cmd += ['opt.%s=%s' % kv for kv in sorted(self.opts.items())]
         cmd += self.extra
         kn = []
+        # aggregate checks (C10/C11) re-run configurations of other properties: a recorded known finding of the source
+        # property that shows up there is that property's finding (it reports it itself), not a verdict of this check
+        src = getattr(self, 'source_pid', None)
+        if src:
+            known = list(known) + [dict(k, _source=True) for k in load_all_known() if k.get('property') == src and k.get('status') == 'known']
         for k in known:
             if k.get('harness') not in (None, self.harness):
                 continue
@@ -58,9 +77,14 @@ class McRun:
                 res['engine_error'] = (res.get('engine_error') or '') + ' %s: %s (replay %s)' % (v['status'], v['msg'], v['replay'])
                 continue
             if v.get('known'):
+                from_source = False
                 for k in kn:
                     if k['assertion'] in v['msg']:
                         v['known_what'] = k.get('what', k['assertion'])
+                        from_source = from_source or bool(k.get('_source'))
+                if from_source:
+                    res['source_known_seen'] = res.get('source_known_seen', 0) + 1
+                    continue
             viols.append(v)
         res['violations'] = viols
         if not res.get('engine_error'):
@@ -170,7 +194,7 @@ def aggregate(level, results):
 
 
 def slim(r):
-    keep = ('run', 'skipped', 'completed_bound', 'bound_requested', 'exhaustive', 'executions', 'states', 'transitions', 'pruned',
+    keep = ('run', 'skipped', 'source_known_seen', 'completed_bound', 'bound_requested', 'exhaustive', 'executions', 'states', 'transitions', 'pruned',
             'distinct_outcomes', 'outcomes', 'cover', 'evaluations', 'distinct_nontrivial', 'domain', 'wall_s', 'engine_error', 'cut', 'max_threads')
     out = {k: r[k] for k in keep if k in r}
     if r.get('violations'):
